@@ -56,6 +56,12 @@ CLAIMED = {
         note="Trusted base: canonicalisation (isomorphic circuits always hash equal; collisions can only hide a difference). No golden files - the reference is recomputed from the current tree.",
         ref="DESIGN.md §8 C19",
     ),
+    "C02": dict(
+        engine="factosim-exec",
+        text="Seeded exploration: stateless bundle programs (literals from inputs / constants / computed members / nested and merged bundles, each-arithmetic with constant and signal scalars incl. a scalar on a member's own type, filters, gating, any/all alone and inside folded conditions, selection) are compiled under an injected layout fault plan and executed in the circuit model over an input history; the whole anchor network of every exported bundle must equal the reference map of non-zero members (so leaked members are visible), scalar results as in C01. Runs showing the structural or static trigger of a reproduced known finding are excluded and counted (a large share of this workload on the current tree).",
+        note="Trusted base: world model semantics of each / anything / everything, reference interpreter. Bundle members are generated on explicit types only.",
+        ref="DESIGN.md §8 C02",
+    ),
 }
 
 NOT_YET = {}
